@@ -23,7 +23,7 @@ type c14params struct {
 }
 
 func init() {
-	report.Register("C14", report.Check{Level: "model_checking", QuickBudget: 150 * time.Second, ThoroughBudget: 40 * time.Minute, Run: runC14})
+	report.Register("C14", report.Check{Level: "model_checking", QuickBudget: 240 * time.Second, ThoroughBudget: 25 * time.Minute, Run: runC14})
 	explore.Register("C14.run", func(p string) explore.Harness {
 		var pr c14params
 		json.Unmarshal([]byte(p), &pr)
